@@ -126,7 +126,7 @@ Section Inv.
   Inductive trans : st -> st -> Prop :=
   | tr_move s t p0 p :          (* a control-point move that neither gains nor loses a task *)
       get_thr s t = Some p0 -> pc_tasks p = pc_tasks p0 ->
-      (p = PExit -> flag s = false) ->
+      (p = PExit -> flag s = false) -> (active_pc p = false -> active_pc p0 = false) ->
       trans s (set_thr s t p)
   | tr_drop s t k :             (* pinned loop only: leave with a fetched task *)
       fixed_loop = false -> flag s = false -> get_thr s t = Some (PHead (Some k)) ->
@@ -211,7 +211,7 @@ Section Inv.
     - (* head *)
       destruct (get_thr s t) as [[| cur | | | | | | | |]|] eqn:G; try discriminate.
       destruct (flag s || (fixed_loop && match cur with Some _ => true | None => false end)) eqn:C.
-      + intros H; injection H as <-. eapply tr_move; eauto; [destruct cur; reflexivity|destruct cur; discriminate].
+      + intros H; injection H as <-. eapply tr_move; eauto; [destruct cur; reflexivity|destruct cur; discriminate|destruct cur; discriminate].
       + intros H; injection H as <-. apply orb_false_elim in C as [Cf C2].
         destruct cur as [k|].
         * apply andb_false_elim in C2 as [C2|C2]; [|discriminate]. eapply tr_drop; eauto.
@@ -477,3 +477,148 @@ Section Inv.
       + destruct kept; [constructor|constructor; [discriminate|constructor]].
   Qed.
 End Inv.
+
+(* ---------- the invariant and its preservation (repaired loop) ---------- *)
+Section Main.
+  Variable CAP NTHR NREQ : nat.
+  Variable reemit : bool.
+  Variable ngb : nat -> nat -> option nat.
+  Hypothesis CAP_pos : 0 < CAP.
+
+  Notation step := (step CAP NTHR NREQ reemit ngb true).
+  Notation trans := (trans CAP NTHR NREQ reemit ngb true).
+
+  Definition shared_only (k : task) (q : nat) : Prop :=
+    match k with TFlush _ | TReemit _ _ => q = 0 | _ => True end.
+
+  (* the part of the invariant that depends on the threads only through the multiset H of tasks they hold *)
+  Record InvD (s : st) (H : list task) : Prop := {
+    d_pk : Permutation (pk_act s ++ pk_loc s ++ flat_map task_pk (map snd (queue s) ++ H) ++ term s) (seq 0 (fresh s));
+    d_done : done s = length (term s);
+    d_src : fresh s + sum (map task_src (map snd (queue s) ++ H)) = NREQ;
+    d_csrc : cont_rem s = sum (map task_csrc (map snd (queue s) ++ H));
+    d_act : nonempty_entries (active s);
+    d_loc : nonempty_entries (local s);
+    d_ok : Forall task_ok (map snd (queue s) ++ H);
+    d_flag : flag s = false -> done s = NREQ;
+    d_sl : Permutation (slocks s) (sdeps H);
+    d_bl : Permutation (blocks s) (bdeps H);
+    d_nd : NoDup (slocks s) /\ NoDup (blocks s);
+    d_shq : Forall (fun e => shared_only (snd e) (fst e)) (queue s)
+  }.
+
+  Record Inv (s : st) : Prop := {
+    i_d : InvD s (held s);
+    i_exit : Forall (fun p => p = PExit -> flag s = false) (thr s);
+    i_live : existsb active_pc (thr s) = false -> held s = [] /\ Forall (fun e => fst e <> 0) (queue s)
+  }.
+
+  (* rest of the threads when thread t is taken out *)
+  Definition others (s : st) (t : nat) : list pc := firstn t (thr s) ++ skipn (S t) (thr s).
+
+  Lemma thr_set s t p : thr (set_thr s t p) = firstn t (thr s) ++ p :: skipn (S t) (thr s).
+  Proof. reflexivity. Qed.
+
+  Lemma held_of s t p0 : get_thr s t = Some p0 -> Permutation (held s) (pc_tasks p0 ++ flat_map pc_tasks (others s t)).
+  Proof. apply held_split. Qed.
+
+  Lemma held_set_thr s t p : Permutation (held (set_thr s t p)) (pc_tasks p ++ flat_map pc_tasks (others s t)).
+  Proof.
+    unfold held. rewrite thr_set. unfold others. rewrite !flat_map_app. cbn [flat_map].
+    rewrite !app_assoc. apply Permutation_app_tail. apply Permutation_app_comm.
+  Qed.
+
+  Lemma existsb_set_thr s t p0 p : get_thr s t = Some p0 ->
+    existsb active_pc (thr (set_thr s t p)) = active_pc p || existsb active_pc (others s t).
+  Proof.
+    intros _. rewrite thr_set. unfold others. rewrite !existsb_app. cbn [existsb].
+    destruct (existsb active_pc (firstn t (thr s))), (active_pc p), (existsb active_pc (skipn (S t) (thr s))); reflexivity.
+  Qed.
+
+  Lemma existsb_thr s t p0 : get_thr s t = Some p0 ->
+    existsb active_pc (thr s) = active_pc p0 || existsb active_pc (others s t).
+  Proof.
+    intros H. unfold get_thr in H. rewrite (nth_split _ _ _ H) at 1. unfold others.
+    rewrite !existsb_app. cbn [existsb].
+    destruct (existsb active_pc (firstn t (thr s))), (active_pc p0), (existsb active_pc (skipn (S t) (thr s))); reflexivity.
+  Qed.
+
+  Lemma inactive_no_tasks l : existsb active_pc l = false -> flat_map pc_tasks l = [].
+  Proof.
+    induction l as [|p l IH]; cbn [existsb flat_map]; [reflexivity|].
+    intros H. apply orb_false_elim in H as [H1 H2]. rewrite (IH H2), app_nil_r.
+    destruct p as [| [k|] | | | [k|] | | | | |]; cbn in *; try reflexivity; discriminate.
+  Qed.
+
+  Lemma In_firstn_ {A} (l : list A) n x : In x (firstn n l) -> In x l.
+  Proof. revert n. induction l as [|y l IH]; intros [|n] H; cbn in *; try contradiction. destruct H; [auto|right; eauto]. Qed.
+  Lemma In_skipn_ {A} (l : list A) n x : In x (skipn n l) -> In x l.
+  Proof. revert n. induction l as [|y l IH]; intros [|n] H; cbn in *; auto. right. eauto. Qed.
+
+  Lemma Forall_set_thr (P : pc -> Prop) s t p : Forall P (thr s) -> P p -> Forall P (thr (set_thr s t p)).
+  Proof.
+    intros H Hp. rewrite thr_set. rewrite Forall_forall in H. apply Forall_app. split.
+    - apply Forall_forall. intros x Hx. apply H. eapply In_firstn_. exact Hx.
+    - constructor; [exact Hp|]. apply Forall_forall. intros x Hx. apply H. eapply In_skipn_. exact Hx.
+  Qed.
+
+  Lemma sdeps_app a b : sdeps (a ++ b) = sdeps a ++ sdeps b.
+  Proof. unfold sdeps. apply flat_map_app. Qed.
+  Lemma bdeps_app a b : bdeps (a ++ b) = bdeps a ++ bdeps b.
+  Proof. unfold bdeps. apply flat_map_app. Qed.
+
+  Lemma InvD_perm s H H' : Permutation H H' -> InvD s H -> InvD s H'.
+  Proof.
+    intros P [A1 A2 A3 A4 A5 A6 A7 A8 A9 A10 A11 A12].
+    assert (PQ : Permutation (map snd (queue s) ++ H) (map snd (queue s) ++ H')) by (apply Permutation_app_head; exact P).
+    constructor; try assumption.
+    - rewrite <- A1. apply Permutation_app_head. apply Permutation_app_head. apply Permutation_app_tail.
+      apply Permutation_flat_map. symmetry. exact PQ.
+    - rewrite <- A3. f_equal. apply sum_perm. apply Permutation_map. symmetry. exact PQ.
+    - rewrite A4. apply sum_perm. apply Permutation_map. exact PQ.
+    - eapply Permutation_Forall; [exact PQ|exact A7].
+    - rewrite A9. unfold sdeps. apply Permutation_flat_map. exact P.
+    - rewrite A10. unfold bdeps. apply Permutation_flat_map. exact P.
+  Qed.
+
+  Lemma memb_false_notin x l : memb x l = false -> ~ In x l.
+  Proof.
+    unfold memb. intros H Hin. assert (existsb (Nat.eqb x) l = true) by (apply existsb_exists; exists x; split; [exact Hin|apply Nat.eqb_refl]). congruence.
+  Qed.
+
+  Lemma remove1_perm x l : In x l -> Permutation l (x :: remove1 x l).
+  Proof.
+    induction l as [|y l IH]; cbn [remove1]; [contradiction|].
+    intros [->|Hin].
+    - rewrite Nat.eqb_refl. reflexivity.
+    - destruct (Nat.eqb_spec x y) as [->|Hne]; [reflexivity|]. rewrite (IH Hin) at 1. apply perm_swap.
+  Qed.
+
+  Lemma NoDup_remove1 x l : NoDup l -> NoDup (remove1 x l).
+  Proof.
+    induction 1 as [|y l Hn Hd IH]; cbn [remove1]; [constructor|].
+    destruct (Nat.eqb x y); [exact Hd|]. constructor; [|exact IH].
+    intros Hin. apply Hn. clear -Hin. induction l as [|z l IH]; cbn [remove1] in Hin; [contradiction|].
+    destruct (Nat.eqb x z); [right; exact Hin|]. destruct Hin; [left; assumption|right; auto].
+  Qed.
+
+  Lemma enqueue_all_queue : forall ks s qsel n,
+    map snd (queue (enqueue_all s qsel n ks)) = map snd (queue s) ++ ks
+    /\ active (enqueue_all s qsel n ks) = active s /\ local (enqueue_all s qsel n ks) = local s
+    /\ slocks (enqueue_all s qsel n ks) = slocks s /\ blocks (enqueue_all s qsel n ks) = blocks s
+    /\ cont_rem (enqueue_all s qsel n ks) = cont_rem s /\ done (enqueue_all s qsel n ks) = done s
+    /\ term (enqueue_all s qsel n ks) = term s /\ fresh (enqueue_all s qsel n ks) = fresh s
+    /\ flag (enqueue_all s qsel n ks) = flag s /\ thr (enqueue_all s qsel n ks) = thr s
+    /\ (Forall (fun e => shared_only (snd e) (fst e)) (queue s) -> Forall (fun e => shared_only (snd e) (fst e)) (queue (enqueue_all s qsel n ks))).
+  Proof.
+    induction ks as [|k ks IH]; intros s qsel n; cbn [enqueue_all].
+    - rewrite app_nil_r. repeat split; auto.
+    - destruct (IH (enqueue s (match k with TReemit _ _ => 0 | TFlush _ => 0 | _ => S (qsel n) end) k) qsel (S n))
+        as (A1 & A2 & A3 & A4 & A5 & A6 & A7 & A8 & A9 & A10 & A11 & A12).
+      rewrite A1, A2, A3, A4, A5, A6, A7, A8, A9, A10, A11.
+      unfold enqueue, set_queue. cbn [queue active local slocks blocks cont_rem done term fresh flag thr].
+      rewrite map_app. cbn [map snd]. rewrite <- app_assoc. repeat split; auto.
+      intros HF. apply A12. unfold enqueue, set_queue. cbn [queue]. apply Forall_app. split; [exact HF|].
+      constructor; [|constructor]. destruct k; cbn; auto.
+  Qed.
+End Main.
